@@ -227,6 +227,56 @@ def run_api(payload):
     return ("ok" if not bad else "; ".join(bad)) + "\x00ok"
 
 
+SPECIAL_PROPS = {"regexp": ["lastIndex", "source", "flags", "global"], "array": ["length", "0", "5"], "typedarray": ["0", "length", "7"],
+                 "object": ["a", "__proto__", "toString", "valueOf"], "function": ["prototype", "length", "name"],
+                 "error": ["message", "name", "stack"], "string": ["length", "0"], "arguments": ["length", "0"]}
+
+
+def run_assign_call(payload):
+    """`r.prop = V` followed by every method the receiver answers (no arguments, and one benign argument)."""
+    e = _engine()
+    recv, prop = payload["recv"], payload["prop"]
+    e.CLOCK.reset("poll")
+    probe = e.Context(time_limit=50)
+    methods = []
+    for name in CANDIDATES:
+        try:
+            if probe.eval("typeof %s[%r] === 'function'" % (RECEIVERS[recv], name)):
+                methods.append(name)
+        except Exception:  # noqa: BLE001
+            pass
+    bad = []
+    acc = "[%s]" % prop if prop.isdigit() else "." + prop
+    for val in ARGS:
+        for m in methods:
+            for call in ("r.%s()" % m, "r.%s('aXb')" % m, "'aXb'.%s(r)" % m if recv == "regexp" and m in ("test",) else None):
+                if call is None:
+                    continue
+                src = "var r = %s; try { r%s = %s } catch (e) { } %s" % (RECEIVERS[recv], acc, val, call)
+                cls, _, _ = classify(e, src, tl=30)
+                if cls.startswith("host"):
+                    bad.append("%s: %s" % (src[-80:], cls))
+        if recv == "regexp":
+            for call in ("'aXb'.replace(r, 'y')", "'aXb'.match(r)", "'aXb'.split(r)", "'aXb'.search(r)", "'aXb'.replaceAll(r, 'y')"):
+                src = "var r = /X/%s; r%s = %s; %s" % (payload.get("flags", "g"), acc, val, call)
+                cls, _, _ = classify(e, src, tl=30)
+                if cls.startswith("host"):
+                    bad.append("%s: %s" % (src[-80:], cls))
+        if len(bad) >= 25:
+            break
+    return ("ok" if not bad else "; ".join(bad[:25])) + "\x00ok"
+
+
+def _assign_cases():
+    out = []
+    for recv, props in SPECIAL_PROPS.items():
+        for prop in props:
+            for flags in (("g", "y", "") if recv == "regexp" else ("",)):
+                out.append(("%s%s: assign every grid value to %s, then call every method" % (recv, "/" + flags if recv == "regexp" else "", prop),
+                            {"recv": recv, "prop": prop, "flags": flags}))
+    return out
+
+
 def _api_cases(maxlen):
     vecs = _vectors(maxlen)
     out = []
@@ -305,6 +355,10 @@ def spaces(tier, seed, all_strata=False):
             "size sweep: digit strings, radix literals, numeric strings, identifiers, string/regex/comment bodies, \\u{...} escapes "
             "and method arguments of length 15..20000, and operator/member/call/bracket/statement chains of length 10..3000",
             "lengths to 20000"),
+        _sp("c04_assign_call", "run_assign_call", _assign_cases,
+            "two-step sequences: a special property (lastIndex, length, index, prototype, message ...) of 8 receiver kinds is assigned "
+            "every value of the adversarial grid, then every method the receiver answers is called (and the regex-consuming string "
+            "methods for RegExp receivers with flags g / y / none)", "assign x call", batch=1),
         _sp("c04_api2", "run_api", lambda: _api_cases(2),
             "every built-in method the engine answers on 28 receiver kinds (discovered through typeof receiver[name] for 330 candidate "
             "names) and 33 global functions/constructors, called and constructed with every argument vector of length 0..2 over the "
